@@ -1,4 +1,5 @@
 import Nri.Model.TopoAware
+import Nri.Gen.ReconfigFacts
 import Nri.Model.Pipeline
 import Nri.Props.C05
 import Nri.Props.C09
@@ -188,5 +189,23 @@ example : Ledger (reinstate [⟨none, [], [0,1], [0]⟩] [⟨"a", 0, .reserved, 
   have : (reinstate [⟨none, [], [0,1], [0]⟩] [⟨"a", 0, .reserved, [], 500⟩, ⟨"b", 0, .normal, [], 250⟩]).grants
       = [⟨"a", 0, .reserved, [], 500⟩, ⟨"b", 0, .normal, [], 250⟩] := rfl
   rw [this]; exact ⟨rfl, rfl⟩
+
+end Nri.TA
+
+/-! ### source shapes the model was written against (ReconfigFacts.lean; the regenerated facts must equal them) -/
+namespace Nri.TA.Expectgen_reconfig_facts_ok
+def resmgrReconfigure : List String := ["apply := func", "> if err := instrumentation.Reconfigure(&mCfg.Instrumentation); err != nil", "> > return err", "> err := m.policy.Reconfigure(cfg.PolicyConfig())", "> if err != nil", "> > return err", "> err = m.nri.updateContainers()", "> return nil", "m.Lock()", "err := apply(cfg)", "if err == nil", "> m.cfg = cfg", "> return nil", "revertErr := apply(m.cfg)", "if revertErr != nil", "return err"]
+def taReconfigure : List String := ["if !ok", "> return policyError(…)", "savedPolicy := *p", "allocations := savedPolicy.allocations.clone()", "opt = cfg", "p.cfg = cfg", "defaultPrio = cfg.DefaultCPUPriority.Value()", "if err := p.initialize(); err != nil", "> *p = savedPolicy", "> return policyError(…)", "if err := p.registerImplicitAffinities(); err != nil", "> return policyError(…)", "range allocations.grants", "> if err := grant.RefetchNodes(); err != nil", "> > *p = savedPolicy", "> > opt = p.cfg", "> > defaultPrio = p.cfg.DefaultCPUPriority.Value()", "> > return policyError(…)", "if err := p.restoreAllocations(&allocations); err != nil", "> *p = savedPolicy", "> opt = p.cfg", "> return policyError(…)", "return nil"]
+def balloonsReconfigure : List String := ["if !ok", "> return balloonsError(…)", "if !changesBalloons(p.cfgoptions, newBalloonsOptions)", "> if !changesCpuClasses(p.cfgoptions, newBalloonsOptions)", "> else", "> > p.bpoptions.IdleCpuClass = newBalloonsOptions.IdleCpuClass", "> > if err := p.resetCpuClass(); err != nil", "> > range p.balloons", "> return nil", "if err := p.setConfig(newBalloonsOptions); err != nil", "> return err", "range p.cch.GetContainers()", "if err := p.Sync(live, p.cch.GetContainers()); err != nil", "return nil"]
+end Nri.TA.Expectgen_reconfig_facts_ok
+
+namespace Nri.TA
+
+/-- the regenerated skeletons of the re-configuration paths are the ones the analysis of C13 was made against: the resource manager applies the new configuration, keeps it on success and otherwise RE-APPLIES the configuration in force (apply(m.cfg)) - so a policy's Reconfigure must be able to undo a half-applied update when called with the old configuration; the topology-aware Reconfigure sets the package-level options BEFORE validating and restores *p (and, on the later paths, opt) on failure; the balloons Reconfigure returns early only when neither balloons nor CPU classes change and otherwise goes through the transactional setConfig -/
+theorem gen_reconfig_facts_ok :
+    Nri.Gen.Reconfig.resmgrReconfigure = Expectgen_reconfig_facts_ok.resmgrReconfigure ∧
+    Nri.Gen.Reconfig.taReconfigure = Expectgen_reconfig_facts_ok.taReconfigure ∧
+    Nri.Gen.Reconfig.balloonsReconfigure = Expectgen_reconfig_facts_ok.balloonsReconfigure := by
+  and_intros <;> rfl
 
 end Nri.TA
